@@ -150,7 +150,9 @@ def fixed_topologies():
     allprot = topo_spec([[("ALA", 1, "A"), ("GLY", 2, "A")], [("SER", 1, "B")]])
     solvent = topo_spec([[("HOH", 1, ""), ("HOH", 1, ""), ("NA", 2, "A")], [("LIG", 5, "B"), ("UNK", 5, "B")]])
     small = topo_spec([[("GLY", 1, "A")], [("HOH", 2, "B"), ("NA", 2, "B")]])
-    return [mixed, allprot, solvent, small]
+    signed = topo_spec([[("ALA", -5, "A"), ("GLY", -1, "A"), ("GLY", 0, "A"), ("SER", 3, "A"), ("GLY", 8, "A"), ("GLY", 8, "A")],
+                        [("HOH", 9, ""), ("NA", -5, "")]])
+    return [mixed, allprot, solvent, small, signed]
 
 
 def random_topology(rng):
@@ -392,7 +394,8 @@ def gen_malformed(rng, kind):
     return join(t, rng, 0.0)
 
 
-IMPL_ONLY = ["name =~ '^C'", "name =~ 'C$'", "name =~ '\\\\d'", "name =~ 'C{1,2}'", "name =~ 'H\\\\d+'",
+IMPL_ONLY = ["name 'a''b'",   # pyparsing's quotedString: a doubled quote inside a quoted string, by design
+             "name =~ '^C'", "name =~ 'C$'", "name =~ '\\\\d'", "name =~ 'C{1,2}'", "name =~ 'H\\\\d+'",
              "resname =~ '^(ALA|GLY)$'", "name =~ 'C.*?'", "name =~ '(?i)ca'", "name =~ ''", "name 'C\\\\A'",
              "name\tCA", "protein\nand name CA", "name =~ '[]C]'", "name =~ 'a{2'"]
 
@@ -415,6 +418,74 @@ def reduced_exhaustive():
                 out.append("%s %s %s" % (y, o, x))
                 out.append("%s %s (%s)" % (y, o, x))
     return out
+
+
+# ---- lexically odd tokens.  The documented language has: keywords, operators, plain decimal integers/floats, quoted
+# strings, bare words (letters then letters/digits), parentheses, "to".  Every token below is outside it, so a string
+# containing one must raise - except where the grammar as found (and hence the model) reads the characters as two
+# adjacent literals of an implicit list ("1e3" = 1 and 'e3', "0x10" = 0 and 'x10', "CA.5" = 'CA' and .5) or as a bare
+# word ("AND", "Or", "inf"): those are "accepted as found" and are compared with the model like any other string.
+ODD_SEPS = ["-", "+", "e", "E", ".", "..", "_", "x", "*", "/", ",", ";", ":", "%", "^", "e-", "e+", "**", "//"]
+ODD_FIXED = {
+    "radix_or_underscore": ["0x10", "0X1F", "0o17", "0b11", "1_000", "1__0", "_1", "1_", "0_0"],
+    "exponent": ["1e3", "1E3", "1e-3", "1E+3", "1.5e2", "1e", "e3", "1e3.5", ".5e1"],
+    "ellipsis": ["..."],
+    "dots": [".5.", "1..2", "..", "....", "1.2.3", ".", "5..", "..5", "1.e", "1 .5", "1. 5"],
+    "signed": ["--5", "-+5", "5-", "5+", "-.5", "+.5", "-", "+", "- 5", "-5-", "1-2-3"],
+    "arithmetic": ["3-8", "10-2", "0-1", "2*3", "1/2", "2**3", "7%2", "1+1", "3 - 8", "2 * 3", "(1)", "((1))", "(3-8)", "1<<2",
+                   "~1", "3-", "-3-8", "8-3.5"],
+    "python": ["__import__", "__import__('os')", "a.b", "a.b.c", "a[0]", "a(1)", "f()", "lambda", "lambda:1", "x:1", "a;b",
+               "a,b", "{1}", "[1,2]", "`a`", "a@b", "$a", "a!", "a\\n", "1j", "1L", "0_", "inf", "nan", "-inf", "a=1", "a==1==",
+               "x if y else z", "import os", "del", "is", "in", "not", "yield", "None.x", "True+1"],
+    "quotes": ["'CA", "CA'", '"CA', "'CA\"", "'", '"', "'C'A'", '"C"A"', "''CA", "'CA' 'CB", "'a''b'", "'\\'"],
+    "separators": ["CA, CB", "CA; CB", "CA,CB", "CA ,CB", ",CA", "CA,", "CA;", ";", ",", "CA : CB", "CA | CB", "CA & CB"],
+}
+ODD_CASE_OPS = ["protein AND water", "protein And water", "protein OR water", "protein Or water", "NOT protein", "Not protein",
+                "resid 1 TO 3", "resid 1 To 3", "mass LT 5", "mass Lt 5", "resid EQ 1", "name CA AND name CB",
+                "(protein) AND (water)", "(protein) Or (water)", "(mass) GT 5", "Protein", "WATER", "Name CA", "RESID 1"]
+LEX_KEYS = ["resSeq", "index", "name", "mass", "resname", "resid"]
+LEX_CONTEXTS = ["{k} {t}", "{k} == {t}", "{k} 1 {t}", "{k} {t} 2", "{k} 1 to {t}", "{k} {t} to 9", "{t}", "{k} {t} and protein",
+                "({k} {t})", "not {k} {t}", "{k} < {t}", "{t} == {k}", "{k} =~ {t}", "protein and {k} {t}"]
+
+
+def lexical_cases(rng, quick):
+    """(string, class) pairs: every odd token in several syntactic positions"""
+    toks_ = []
+    for klass, ts in ODD_FIXED.items():
+        toks_ += [(t, klass) for t in ts]
+    nums = ["3", "8", "10", "2", "0.5", "12"]
+    for sep in ODD_SEPS:
+        for a, b in ([("3", "8"), ("10", "2")] if quick else [(a, b) for a in nums[:4] for b in nums[:4] if a != b] + [("0.5", "2")]):
+            toks_.append((a + sep + b, "embedded[%s]" % sep))
+        for a in (["5"] if quick else ["5", "0.5", "10"]):
+            toks_.append((sep + a, "leading[%s]" % sep))
+            toks_.append((a + sep, "trailing[%s]" % sep))
+    out = []
+    for t, klass in toks_:
+        ctxs = rng.sample(LEX_CONTEXTS, 2) if quick else LEX_CONTEXTS
+        if quick and klass in ("arithmetic", "signed") or klass.startswith("embedded[-") or klass.startswith("embedded[+"):
+            ctxs = LEX_CONTEXTS[:7] if quick else LEX_CONTEXTS
+        for c in ctxs:
+            out.append((c.format(k=rng.choice(LEX_KEYS), t=t), "lexical/" + klass))
+    for s_ in ODD_CASE_OPS:
+        out.append((s_, "lexical/odd_case"))
+    return out
+
+
+def signed_checks(rng, ntopo, quick):
+    """signed numbers are not part of the documented language (NUMS has no sign, the docs show none): a string with
+    one may be refused; if it is accepted it must have the plain numeric meaning.  Anything else is a failure."""
+    checks = []
+    for k in ["resSeq", "index", "resid"]:
+        for v in ([-5, -1] if quick else [-5, -1, -10, -3]):
+            for ti in range(ntopo):
+                checks.append({"topo": ti, "kind": "naive", "lhs": "%s %d" % (k, v), "attr": k, "op": "==", "value": v, "or_reject": True})
+                checks.append({"topo": ti, "kind": "naive", "lhs": "%s == %d" % (k, v), "attr": k, "op": "==", "value": v, "or_reject": True})
+                checks.append({"topo": ti, "kind": "naive", "lhs": "%s > %d" % (k, v), "attr": k, "op": ">", "value": v, "or_reject": True})
+                checks.append({"topo": ti, "kind": "naive", "lhs": "%s %d to 3" % (k, v), "attr": k, "op": "range", "value": [v, 3],
+                               "or_reject": True})
+                checks.append({"topo": ti, "kind": "naive", "lhs": "%s +%d" % (k, -v), "attr": k, "op": "==", "value": -v, "or_reject": True})
+    return checks
 
 
 KEYWORD_WORDS = set(BOOL_KW + STR_KW + NUM_KW)
@@ -589,7 +660,7 @@ def run_cases(ctx, topo_specs, cases, sentinel=True):
     in_model = [i for i, c in enumerate(cases) if c["stream"] != "impl_only"]
     outside = [i for i in in_model if codes.get(i, 0) & 8]
     for i in outside:
-        if cases[i]["stream"] not in ("malformed",):
+        if cases[i]["stream"] not in ("malformed", "lexical"):
             ctx.break_("correspondence:generator-domain", "generated string outside the modelled domain: %r" % cases[i]["s"])
             break
     compared = [i for i in in_model if not codes.get(i, 0) & 8]
@@ -601,7 +672,7 @@ def run_cases(ctx, topo_specs, cases, sentinel=True):
     if os.environ.get("C12_DEBUG"):
         with open(os.environ["C12_DEBUG"], "w") as fh:
             json.dump([{"s": cases[i]["s"], "impl": outs[i], "code": codes.get(i, 0), "stream": cases[i]["stream"],
-                        "topo": cases[i]["topo"]} for i in in_model if codes.get(i, 0)], fh, indent=0)
+                        "topo": cases[i]["topo"]} for i in in_model if codes.get(i, 0) & 15], fh, indent=0)
     budget = {}
     as_found, _doc_ok, _conv, lv_as_found = table_status(ctx)
     if not as_found:
@@ -651,9 +722,23 @@ def run_cases(ctx, topo_specs, cases, sentinel=True):
             elif variant == "as_found" and code & 2:
                 fail("single", "a single numeric literal equal to 0 or 1 is accepted as a selection", i, "rejected",
                      {"kind": "single_literal", "explained_by": "in_safe_set"})
-            elif c.get("malformed") and outs[i][0] != "rejected":
+            elif c.get("malformed") and c["stream"] == "malformed" and outs[i][0] != "rejected":
                 fail("malformed", "malformed expression accepted (%s)" % c["malformed"], i, "rejected",
                      {"kind": "malformed_accepted", "class": c["malformed"]})
+    # strings that are malformed by construction (mutated expressions, lexically odd tokens): whenever the model
+    # rejects them, or has no answer because they leave its alphabet, the implementation must raise
+    accepted_as_found = {}
+    for i in sorted(in_model, key=lambda i: len(cases[i]["s"])):
+        c, code = cases[i], codes.get(i, 0)
+        if c["stream"] not in ("malformed", "lexical") or outs[i][0] == "rejected":
+            continue
+        if code & 8 or code == 15 or (code & 32 and not (variant == "as_found" and code & 2 and not code & 1)):
+            fail("malformed", "malformed expression accepted (%s)" % c["malformed"], i, "rejected",
+                 {"kind": "malformed_accepted", "class": c["malformed"]})
+        elif c["stream"] == "lexical":
+            accepted_as_found[c["malformed"]] = accepted_as_found.get(c["malformed"], 0) + 1
+    if accepted_as_found:
+        ctx.notes["coverage_extra"]["lexical_classes_accepted_as_found_and_compared_with_model"] = accepted_as_found
     for i, (c, o) in enumerate(zip(cases, outs)):
         ctx.count({"topo": c["topo"], "s": c["s"]}, nontrivial=nontrivial(c["s"]), bucket="%s/%s" % (c["stream"], o[0]))
         stats[o[0]] = stats.get(o[0], 0) + 1
@@ -696,7 +781,7 @@ def build_cases(ctx):
             add(join(a + [o] + b, rng, 0.0), "spelling")
     # pyparsing needs up to seconds for parentheses nested 5-6 deep (19 levels per parenthesis): the deep cases are
     # mostly generated without parentheses or with the conventional ones, and are few
-    n = 700 if quick else 4000
+    n = 600 if quick else 4000
     for i in range(n):
         depth = rng.choice([0, 1, 1, 2, 2, 3, 4] if quick else [0, 1, 1, 2, 2, 2, 3, 3, 4])
         tree = gen_tree(rng, depth)
@@ -709,6 +794,8 @@ def build_cases(ctx):
     for kind in MALFORMED_KINDS:
         for _ in range(12 if quick else 150):
             add(gen_malformed(rng, kind), "malformed", malformed=kind)
+    for s_, klass in lexical_cases(rng, quick):
+        add(s_, "lexical", topo=rng.choice([0, 4]), malformed=klass)
     for s in IMPL_ONLY:
         add(s, "impl_only", 0)
     if not quick:
@@ -797,6 +884,7 @@ def meta_checks(rng, ntopo, n):
 def run_meta(ctx, specs, n):
     """standard-residue oracles use topologies built from standard residues only"""
     checks = meta_checks(ctx.rng, len(specs), n)
+    checks += signed_checks(ctx.rng, min(len(specs), 5), ctx.tier == "quick")
     std = topo_spec([[("ALA", 1, "A"), ("GLY", 2, "A"), ("SER", 3, "A")], [("HOH", 1, ""), ("SOL", 2, ""), ("NA", 3, "")]])
     specs = list(specs) + [std]
     for attr, lhs in (("protein_std", "protein"), ("backbone_std", "backbone"), ("water", "water")):
@@ -809,7 +897,8 @@ def run_meta(ctx, specs, n):
                  {"topo_spec": specs[b["topo"]], "s": b["lhs"], "stream": "meta", "meta": b}, observed=b["observed"],
                  expected=b["expected"], tags={"kind": "meta_" + b["kind"]}, stage="search")
     for c in checks:
-        ctx.count({"topo": c["topo"], "s": c["lhs"], "meta": c["kind"]}, nontrivial=True, bucket="meta/" + c["kind"])
+        ctx.count({"topo": c["topo"], "s": c["lhs"], "meta": c["kind"]}, nontrivial=True,
+                  bucket="meta/" + ("signed_number" if c.get("or_reject") else c["kind"]))
     return len(out["bad"])
 
 
